@@ -1,5 +1,6 @@
-(** C16 — admission defaulting is idempotent, (patch-faithful,) expands configName correctly. *)
+(** C16 — admission defaulting is idempotent, patch-faithful, expands configName correctly. *)
 From Furiko Require Import Admission.Mutate Proofs.OptionsP Proofs.MutateP.
+From Furiko Require Admission.Patch Proofs.PatchP.
 Open Scope list_scope.
 Open Scope Z_scope.
 
@@ -124,3 +125,32 @@ Example c16_nonvacuous :
              (Some [("env", VStr "prod")])
              [("jobconfig.name", "jc"); ("jobconfig.namespace", "ns"); ("jobconfig.uid", "uid-1"); ("option.env", "prod"); ("x", "y")]).
 Proof. vm_compute. reflexivity. Qed.
+
+(** the JSON patch (cmp.CreateJSONPatch = jsonpatch.CreatePatch: object diff, element-wise
+    array diff, edit-distance script for simple arrays), applied to the document it was
+    computed from, operation after operation by RFC 6902, succeeds and yields the target
+    document up to the order of object members - for all decoded documents (object keys
+    unique), any nesting, and every order in which Go enumerates the maps *)
+Theorem c16_patch_faithful :
+  forall a b, Patch.wfb a = true -> Patch.wfb b = true ->
+    exists r, Patch.apply_ops (Patch.create_patch a b) a = Some r /\ PatchP.jeq r b.
+Proof. exact PatchP.patch_faithful. Qed.
+Print Assumptions c16_patch_faithful.
+
+(** the text of the paths (RFC 6901 escaping by makePath) reads back as the same tokens, for
+    every key *)
+Theorem c16_patch_path_text : forall ks, Patch.parse_path (Patch.render_raw ks) = Some ks.
+Proof. exact PatchP.path_text_roundtrip. Qed.
+Print Assumptions c16_patch_path_text.
+
+(** Non-vacuity: finalizer appended to a string array (edit distance), a label map added, a
+    nested default filled in, a member dropped; keys with "/" *)
+Example c16_patch_nonvacuous :
+  let a := Patch.JObj [("metadata", Patch.JObj [("finalizers", Patch.JArr [Patch.JStr "other/finalizer"]); ("name", Patch.JStr "j")]);
+                       ("spec", Patch.JObj [("configName", Patch.JStr "jc"); ("template", Patch.JObj [("maxAttempts", Patch.JNull)])])]%string in
+  let b := Patch.JObj [("spec", Patch.JObj [("template", Patch.JObj [("maxAttempts", Patch.JNum 1)]); ("type", Patch.JStr "Adhoc")]);
+                       ("metadata", Patch.JObj [("name", Patch.JStr "j"); ("labels", Patch.JObj [("execution.furiko.io/job-config-uid", Patch.JStr "u")]);
+                                                ("finalizers", Patch.JArr [Patch.JStr "other/finalizer"; Patch.JStr "execution.furiko.io/delete-dependents-finalizer"])])]%string in
+  Patch.wfb a = true /\ Patch.wfb b = true /\ List.length (Patch.create_patch a b) = 5%nat /\
+  match Patch.apply_ops (Patch.create_patch a b) a with Some r => Patch.jeqb r b = true | None => False end.
+Proof. vm_compute. repeat split; reflexivity. Qed.
